@@ -272,6 +272,9 @@ def _shard_entry(args):
     return ("ok", acc)
 
 
+STAGE_TIMEOUT = float(os.environ.get("PV_STAGE_TIMEOUT", "2400"))  # main.py raises it for the thorough tier
+
+
 def pmap(acc, fn, nshards=None, extra=()):
     """Run fn(acc_shard, shard, nshards, *extra) in nshards forked workers and merge."""
     nshards = nshards or NPROC
@@ -281,7 +284,13 @@ def pmap(acc, fn, nshards=None, extra=()):
     else:
         ctx = multiprocessing.get_context("fork")
         with ctx.Pool(min(NPROC, nshards)) as pool:
-            results = pool.map(_shard_entry, jobs, chunksize=1)
+            # a stage that makes no end (workers blocked in C on a leaked lock, say) is reported
+            # as a harness error - inconclusive, never a violation and never an endless run
+            try:
+                results = pool.map_async(_shard_entry, jobs, chunksize=1).get(timeout=STAGE_TIMEOUT)
+            except multiprocessing.TimeoutError:
+                pool.terminate()
+                raise HarnessError(f"{acc.prop}: a stage ({getattr(fn, '__name__', fn)}) did not finish within {STAGE_TIMEOUT}s") from None
     for status, val in results:
         if status != "ok":
             raise HarnessError(val)
